@@ -63,6 +63,68 @@ func natLit(e ast.Expr) uint64 {
 
 func line(n ast.Node) int { return fset.Position(n.Pos()).Line }
 
+// packageShape pins what the constants above are constants OF: in goom's root package
+//   - `Result` is implemented by *BaseMatcher and by *EmptyMatch (`return []reflect.Value{}`) only, so no matcher type that
+//     embeds *BaseMatcher shadows the modelled method;
+//   - the cursor field `curNum` is read or written nowhere but in (*BaseMatcher).Result (newBaseMatcher initialises it in a
+//     composite literal);
+//   - (*When).invoke serves a matching condition with `c.Result()` and (*When).returnDefaults ends in
+//     `w.defaultReturns.Result()`; (*baseMocker).callback obtains the results from `m.when.invoke(args)`.
+func packageShape(repo string) {
+	pkgs, err := parser.ParseDir(fset, repo, func(fi os.FileInfo) bool { return !strings.HasSuffix(fi.Name(), "_test.go") }, 0)
+	if err != nil {
+		fmt.Fprintln(os.Stderr, "goom: untranslatable:", err)
+		os.Exit(1)
+	}
+	pkg := pkgs["mocker"]
+	if pkg == nil {
+		fmt.Fprintln(os.Stderr, "goom:1: untranslatable: package mocker not found")
+		os.Exit(1)
+	}
+	calls := map[string]bool{}
+	for _, f := range pkg.Files {
+		for _, d := range f.Decls {
+			fd, ok := d.(*ast.FuncDecl)
+			if !ok || fd.Body == nil {
+				continue
+			}
+			recv := ""
+			if fd.Recv != nil && len(fd.Recv.List) == 1 {
+				recv = src(fd.Recv.List[0].Type)
+			}
+			name := recv + "." + fd.Name.Name
+			if fd.Name.Name == "Result" {
+				switch recv {
+				case "*BaseMatcher":
+				case "*EmptyMatch":
+					if len(fd.Body.List) != 1 || src(fd.Body.List[0]) != "return []reflect.Value{}" {
+						fail(fd, "(*EmptyMatch).Result is expected to be `return []reflect.Value{}`")
+					}
+				default:
+					fail(fd, "unexpected implementation of Result on %s: the model knows *BaseMatcher and *EmptyMatch only", recv)
+				}
+			}
+			ast.Inspect(fd.Body, func(n ast.Node) bool {
+				switch x := n.(type) {
+				case *ast.SelectorExpr:
+					if x.Sel.Name == "curNum" && name != "*BaseMatcher.Result" {
+						fail(x, "the cursor curNum is accessed in %s; the model assumes only (*BaseMatcher).Result touches it", name)
+					}
+				case *ast.CallExpr:
+					calls[name+" -> "+src(x.Fun)] = true
+				}
+				return true
+			})
+		}
+	}
+	for _, need := range []string{"*When.invoke -> c.Result", "*When.returnDefaults -> w.defaultReturns.Result", "*baseMocker.callback -> m.when.invoke"} {
+		if !calls[need] {
+			fmt.Fprintf(os.Stderr, "goom:1: untranslatable: expected call %s not found\n", need)
+			os.Exit(1)
+		}
+	}
+}
+
 // matchesShape inspects (*When).Matches in when.go: the body of its range loop must consist of the two argument/result
 // normalisations, optionally `w.Return(results...)`, then `matcher := newDefaultMatch(args, results, w.isMethod, w.funcTyp)`
 // and `w.matches = append(w.matches, matcher)`.
@@ -238,6 +300,7 @@ func main() {
 	want(r4, src(r4.Results[0]), c+".results["+v+"]")
 
 	leak, leakLine := matchesShape(*repo)
+	packageShape(*repo)
 
 	var o strings.Builder
 	fmt.Fprintf(&o, "-- GENERATED by harness/c05/extract (go/ast) from matcher.go — do not edit.\n")
